@@ -18,8 +18,8 @@ import (
 func NewConn(name string, in io.ReadCloser, out io.WriteCloser) net.Conn {
 	c := &fakeConn{
 		name:   name,
-		reader: newFeeder(in.Read),
-		writer: newFeeder(out.Write),
+		reader: newFeeder(in.Read, true),
+		writer: newFeeder(out.Write, false),
 		in:     in,
 		out:    out,
 	}
@@ -44,6 +44,7 @@ type fakeAddr string
 // connection is closed while the calls are still outstanding.
 type connFeeder struct {
 	source func([]byte) (int, error)
+	fills  bool // source fills the buffer (Read) rather than consuming it (Write)
 	input  chan []byte
 	result chan feedResult
 	mu     sync.Mutex
@@ -74,9 +75,10 @@ func (c *fakeConn) SetWriteDeadline(t time.Time) error { return nil }
 func (a fakeAddr) Network() string                     { return "fake" }
 func (a fakeAddr) String() string                      { return string(a) }
 
-func newFeeder(source func([]byte) (int, error)) *connFeeder {
+func newFeeder(source func([]byte) (int, error), fills bool) *connFeeder {
 	return &connFeeder{
 		source: source,
+		fills:  fills,
 		input:  make(chan []byte),
 		result: make(chan feedResult),
 		done:   make(chan struct{}),
@@ -94,9 +96,16 @@ func (f *connFeeder) close() {
 
 func (f *connFeeder) do(b []byte) (n int, err error) {
 	verifYield(f, "do:enter", b)
+	// The worker gets a private buffer: when the connection is closed while the
+	// call is outstanding, do returns at once but the worker may still be inside
+	// source, and the caller owns b again as soon as do has returned.
+	buf := make([]byte, len(b))
+	if !f.fills {
+		copy(buf, b)
+	}
 	// send the request to the worker
 	select {
-	case f.input <- b:
+	case f.input <- buf:
 	case <-f.done:
 		return 0, io.EOF
 	}
@@ -104,6 +113,9 @@ func (f *connFeeder) do(b []byte) (n int, err error) {
 	// get the result from the worker
 	select {
 	case r := <-f.result:
+		if f.fills && r.n > 0 && r.n <= len(buf) {
+			copy(b, buf[:r.n])
+		}
 		return r.n, r.err
 	case <-f.done:
 		return 0, io.EOF
